@@ -15,6 +15,7 @@ import (
 	"runtime"
 	"strings"
 	"sync"
+	"sync/atomic"
 	"time"
 
 	"github.com/notaryproject/notation-core-go/revocation"
@@ -558,8 +559,97 @@ func c09OddCRLs(c *mc.Ctx) {
 	}
 }
 
+// ---- streamed bodies: a server that never stops sending --------------------------------------------
+
+const c09Horizon = 128 << 20 // four times the largest documented body limit (32 MiB for CRLs, 20 KiB for OCSP)
+
+var c09StreamTargets = []string{"ocsp", "crl", "delta"}
+var c09StreamStatus = []int{200, 404, 500}
+var c09StreamPrefix = []string{"none", "genuine-reply", "one-byte"}
+
+// c09Streamed answers one kind of request with a body that never ends, under each status and after each prefix, through each
+// entry point; a read that reaches the harness horizon of 128 MiB was not bounded (with a truly endless stream it would never return).
+func c09Streamed(c *mc.Ctx) {
+	kind := c09StreamTargets[c.ChooseFree("target", len(c09StreamTargets))]
+	status := c09StreamStatus[c.ChooseFree("status", len(c09StreamStatus))]
+	prefix := c09StreamPrefix[c.ChooseFree("prefix", len(c09StreamPrefix))]
+	entry := c.ChooseFree("entry", 2) // 0 = full validator, 1 = the narrow entry point (ocsp.CheckStatus / HTTPFetcher.Fetch)
+	r := c09GetRev()
+	var overrun int32
+	body := func(genuine []byte) netsim.Answer {
+		e := &netsim.Endless{Horizon: c09Horizon, Overrun: &overrun}
+		switch prefix {
+		case "genuine-reply":
+			e.Prefix = genuine
+		case "one-byte":
+			e.Prefix = []byte{0x30}
+		}
+		return netsim.Answer{Status: status, Lazy: e}
+	}
+	tr := &netsim.Transport{}
+	tr.Handler = func(rq *netsim.Request, raw *http.Request) netsim.Answer {
+		src, ok := parseSource(rq.URL)
+		if !ok {
+			return netsim.Answer{Status: 404}
+		}
+		switch {
+		case src.kind == "ocsp":
+			if kind == "ocsp" {
+				return body(r.ocspGood)
+			}
+			return netsim.Answer{Err: netsim.ErrTransport} // force the CRL path
+		case src.delta:
+			if kind == "delta" {
+				return body(r.crlDelta)
+			}
+			return netsim.Answer{Status: 200, Body: r.crlDelta}
+		default:
+			switch kind {
+			case "crl":
+				return body(r.crlPlain)
+			case "delta":
+				return netsim.Answer{Status: 200, Body: r.crlBase}
+			}
+			return netsim.Answer{Status: 200, Body: r.crlPlain}
+		}
+	}
+	chain := pki.X509s(r.w.certs)
+	out := "?"
+	pan, hung, dump := guarded(func() {
+		f, _ := corecrl.NewHTTPFetcher(tr.Client())
+		switch {
+		case entry == 0:
+			v, _ := revocation.NewWithOptions(revocation.Options{OCSPHTTPClient: tr.Client(), CRLFetcher: f, CertChainPurpose: purpose.CodeSigning})
+			res, err := v.ValidateContext(context.Background(), revocation.ValidateContextOptions{CertChain: chain, AuthenticSigningTime: pki.Now.Add(-time.Hour)})
+			if err == nil && len(res) > 0 && res[0] != nil {
+				out = "verdict:" + res[0].Result.String()
+			}
+		case kind == "ocsp":
+			res, err := revocsp.CheckStatus(revocsp.Options{CertChain: chain, HTTPClient: tr.Client()})
+			if err == nil && len(res) > 0 && res[0] != nil {
+				out = "verdict:" + res[0].Result.String()
+			}
+		default:
+			_, err := f.Fetch(context.Background(), crlURL(0, 0))
+			out = fmt.Sprintf("fetch-error:%v", err != nil)
+		}
+	})
+	c.State("endless " + kind + " body")
+	c.Outcome("streamed:" + out)
+	what := fmt.Sprintf("revocation check with a %s reply (status %d) whose body never ends", kind, status)
+	if c09Report(c, what, "prefix "+prefix, pan, hung, dump) {
+		return
+	}
+	if atomic.LoadInt32(&overrun) != 0 {
+		c.Fail("C09 unbounded read of a server body ("+kind+" reply)", "%s, prefix %s, entry %d: the library read %d MiB without stopping (harness horizon): with a stream that never ends the call never returns", what, prefix, entry, c09Horizon>>20)
+	}
+	c.Tracef("%s, prefix %s, entry %d -> %s", what, prefix, entry, out)
+}
+
 func c09Scenarios(tier mc.Tier) []mc.Scenario {
 	var out []mc.Scenario
+	out = append(out, mc.Scenario{Name: "C09-bodies-that-never-end", Bound: -1, Expect: int64(len(c09StreamTargets) * len(c09StreamStatus) * len(c09StreamPrefix) * 2), Body: c09Streamed,
+		Params: map[string]string{"targets": fmt.Sprint(c09StreamTargets), "statuses": fmt.Sprint(c09StreamStatus), "prefixes": fmt.Sprint(c09StreamPrefix), "horizonMiB": fmt.Sprint(c09Horizon >> 20)}})
 	for si, sd := range c09Seeds(tier) {
 		sd := sd
 		n := byteMutantCount(sd.data)
